@@ -126,6 +126,8 @@ def main (argv=None):
     print("harness error: vacuous exploration (distinct outcomes=%d)" % len(rep.outcomes))
     status = 2 if status == 0 else status
 
+  if not rep.samples and not rep.errors:
+    print("harness error: no sample cases recorded"); status = 2 if status == 0 else status
   if not args.no_evidence and args.only is None:
     ev = os.path.join(HERE, "evidence", pid + ".json")
     from mc.report import write_evidence
